@@ -61,9 +61,10 @@ def expectedURI (uri : Bytes) (reqP clientP : List KV) : Bytes :=
     | .lit c => [c]
     | .ph n => phValue reqP clientP n
 
-/-- a value that a URL path carries unchanged: unreserved bytes only, not empty, not a dot segment -/
+/-- a value that a URL path carries unchanged: unreserved bytes only and not a dot segment (the empty
+    value is fine: it arrives as the empty string, `/items:ext` ↦ `/items`) -/
 def pathValueSafe (v : Bytes) : Bool :=
-  !v.isEmpty && v.all unreserved && v != b "." && v != b ".."
+  v.all unreserved && v != b "." && v != b ".."
 
 /-- what may follow a ':' construct: after a placeholder or a literal ':' comes the end or a literal
     byte that cannot continue a name — a placeholder directly behind one of them would glue its
@@ -96,7 +97,8 @@ def usedValues (uri : Bytes) (reqP clientP : List KV) : List Bytes :=
       | some v => some v
       | none => mapGet clientP n
 
-/-- K2 region (known finding): a substituted path-parameter value needs escaping -/
+/-- K2 region (known finding): a substituted path-parameter value needs escaping (a byte that is not
+    unreserved) or is a dot segment -/
 def unsafePathValue (uri : Bytes) (reqP clientP : List KV) : Bool :=
   (usedValues uri reqP clientP).any fun v => !pathValueSafe v
 
